@@ -26,7 +26,7 @@ def multilinear_terms(D):
     return [S for k in range(D + 1) for S in itertools.combinations(range(D), k)]
 
 
-def make_function(D, a, b):
+def make_function(D, a, b, peak=None):
     Function = _lib()[4]
     terms = multilinear_terms(D)
 
@@ -40,8 +40,11 @@ def make_function(D, a, b):
             shape = X.shape[:-1]
             X = X.reshape(-1, D)
             out = np.empty((len(X), 2 + len(terms)))
-            out[:, 0] = hashval_vec(X, a, b)
-            out[:, 1] = np.exp(-np.sum((X - 0.3) ** 2, axis=1))
+            if peak is None:
+                out[:, 0] = hashval_vec(X, a, b)
+            else:   # symmetric peak near the diagonal: drives natural (error-estimator based) refinement, ties between dimensions
+                out[:, 0] = np.exp(-peak[1] * np.sum((X - peak[0]) ** 2, axis=1))
+            out[:, 1] = np.exp(-np.sum((X - 0.3) ** 2, axis=1)) if peak is None else out[:, 0]
             for j, S in enumerate(terms):
                 v = np.ones(len(X))
                 for d in S:
@@ -63,12 +66,13 @@ def monomial_integral(S, a, b):
 
 
 class ESRun:
-    def __init__(self, D, lmin, lmax, version=0, nrbe=1, auto=False, single=False, boundary=True, a=None, b=None, margin=None):
+    def __init__(self, D, lmin, lmax, version=0, nrbe=1, auto=False, single=False, boundary=True, a=None, b=None, margin=None, peak=None):
         SA, TG, Integration, EC, _ = _lib()
         self.D, self.lmin, self.lmax0 = D, lmin, lmax
         self.a = np.array([0.0] * D if a is None else a, dtype=float)
         self.b = np.array([1.0] * D if b is None else b, dtype=float)
-        self.f, self.terms = make_function(D, self.a, self.b)
+        self.f, self.terms = make_function(D, self.a, self.b, peak)
+        self.natural = peak is not None
         self.grid = TG(a=self.a, b=self.b, boundary=boundary)
         self.op = Integration(f=self.f, grid=self.grid, dim=D)
         self.combi = SA(self.a, self.b, operation=self.op, version=version, number_of_refinements_before_extend=nrbe,
@@ -81,11 +85,11 @@ class ESRun:
             def calc_error(self, refine_object, norm, volume_weights=None):
                 return 0.0
         from sparseSpACE.ErrorCalculator import ErrorCalculatorExtendSplit
-        self.ec = ScriptedError() if not auto else ErrorCalculatorExtendSplit()
+        self.ec = ScriptedError() if not (auto or self.natural) else ErrorCalculatorExtendSplit()
         self.scripted = not auto
         self.started = False
         self.cfg = dict(D=D, lmin=lmin, lmax=lmax, version=version, nrbe=nrbe, auto=auto, single=single, boundary=boundary,
-                        a=[float(x) for x in self.a], b=[float(x) for x in self.b], margin=float(self.combi.margin))
+                        a=[float(x) for x in self.a], b=[float(x) for x in self.b], margin=float(self.combi.margin), peak=peak)
 
     def evaluate(self):
         with impl.quiet(), impl.watchdog(180):
@@ -123,7 +127,7 @@ def observe(run, B=None):
     c = run.combi
     D = run.D
     objs = run.leaves()
-    ev = {'B': [int(x) for x in B] if B is not None else [], 'lmax': int(c.lmax[0]),
+    ev = {'B': [int(x) for x in B] if B is not None else [], 'lmax': int(c.lmax[0]),  # B empty: benefits left to the library's own error estimator
           'leaves': [{'s': [run.snap(d, o.start[d]) for d in range(D)], 'e': [run.snap(d, o.end[d]) for d in range(D)],
                       'c': int(o.coarseningValue), 'n': int(o.needExtendScheme)} for o in objs],
           'scheme': [[[int(x) for x in g.levelvector], int(round(float(g.coefficient)))] for g in c.scheme]}
@@ -168,7 +172,7 @@ def observe(run, B=None):
             plist = list(allpts)
             with impl.quiet(), impl.watchdog(180):
                 vals = np.asarray(c(plist), dtype=float)
-            ref = hashval_vec(np.asarray(plist), run.a, run.b)
+            ref = np.asarray(run.f.eval_vectorized(np.asarray(plist)), dtype=float)[:, 0]
             bad = np.nonzero(np.abs(vals[:, 0] - ref) > 1e-8)[0]
             if len(bad):
                 interp_ok = False
@@ -199,7 +203,7 @@ def strip(ev):
 def trace_cfg(run):
     m = Fraction(run.margin_req).limit_denominator(1000)
     return {'D': run.D, 'lmin': run.lmin, 'lmax': run.lmax0, 'version': run.cfg['version'], 'nrbe': run.cfg['nrbe'] + 1, 'lat': LAT,
-            'mnum': m.numerator, 'mden': m.denominator, 'ispec': not (run.cfg['auto'] or run.cfg['single'])}
+            'mnum': m.numerator, 'mden': m.denominator, 'ispec': not (run.cfg['auto'] or run.cfg['single'] or run.natural)}
 
 
 def benefits_for(run, sel, rng):
@@ -211,7 +215,8 @@ def benefits_for(run, sel, rng):
 
 
 def do_step(run, B):
-    run.set_benefits(B)
+    if B is not None:
+        run.set_benefits(B)
     run.refine()
     run.evaluate()
     return observe(run, B)
@@ -281,7 +286,7 @@ def edge_replay(rep, g, c, traces, maxedges, rng):
 
 def random_history(rng, c, steps):
     run = ESRun(c['D'], c['lmin'], c['lmax'], version=c['version'], nrbe=c['nrbe'], auto=c.get('auto', False), single=c.get('single', False),
-                boundary=c.get('boundary', True), a=c.get('a'), b=c.get('b'), margin=c.get('margin'))
+                boundary=c.get('boundary', True), a=c.get('a'), b=c.get('b'), margin=c.get('margin'), peak=c.get('peak'))
     run.evaluate()
     evs = [observe(run)]
     script = []
@@ -290,10 +295,16 @@ def random_history(rng, c, steps):
         if n > c.get('maxleaves', 40):
             break
         mode = rng.random()
-        if c.get('chain') is not None:
+        if c.get('peak') is not None:
+            B = None
+        elif c.get('chain') is not None:
             # always refine the leaf that contains a fixed corner of the domain (a point singularity)
             corner = [run.b[d] if (c['chain'] >> d) & 1 else run.a[d] for d in range(run.D)]
             B = [10 if all(o.start[d] <= corner[d] <= o.end[d] for d in range(run.D)) else 0 for o in run.leaves()]
+        elif c.get('dense'):
+            B = [10 if rng.random() < 0.5 else rng.randint(0, 6) for _ in range(n)]
+            if 10 not in B:
+                B[rng.randrange(n)] = 10
         elif mode < 0.15:
             B = [0] * n
         elif mode < 0.3:
